@@ -12,7 +12,9 @@ package main
 //   uri / body parts   c<lit> | pX.y ({{.request.X.postprocessor.y}}) | eX.y (…preprocessor…) | s<k> ({{(index .source.users k).name}})
 //   xh    <header>=<part>   an extra request header (e.g. one literally named url or body) rendered from a part
 //   post  j<var>=<key> (var/jsonpath $.key)  h<var>=<Header> (var/header)  a<code> (assert status)  t<text> (assert body)
-// oracle or=<inst0>/<inst1>/…   per request ordinal: k | s<code> | b (bad json) | e ({}) | g (garbage) | c (close)
+// oracle or=<inst0>/<inst1>/…   per request ordinal: k | s<code> | b (bad json) | e ({}) | g (garbage) | c (close) | t (body cut short)
+//        r (302 with a Location: not followed)  n (204, no body)  L (a body of 5 KiB, chunked)
+//   pre (round 3)  v=N<k> / L<k> / I<idx> other spellings of [next] / [last] / [idx] paths;  v=F… a template function (see fnText)
 
 import (
 	"bufio"
@@ -74,6 +76,97 @@ func parseReqs(s string) []reqDef {
 	return out
 }
 
+// nextSpellings: ways to write `source.users[next].id` that GetMapValue must read alike (leading dot, upper case and
+// blanks inside the brackets, blanks around the segments). The counter key is the path AS WRITTEN (after trimming the
+// segments): spellings 0 and 3 share the counter of the plain one, 1, 2 and 4 have counters of their own.
+var nextSpellings = []string{".source.users[next].id", "source.users[NEXT].id", "source.users[ next ].id", " source . users[next] . id ", "source.users[Next ].id"}
+var lastSpellings = []string{"source.users[LAST].name", "source.users[ last ].name", ".source. users[Last] .name"}
+
+// fnArg: an argument of a template function: q<req>.<post|pre>.<var> is a path into the template variables, anything
+// else is the literal text
+func fnArg(a string) string {
+	if strings.HasPrefix(a, "q") && strings.Count(a, ".") == 2 {
+		return prePath(a)
+	}
+	return a
+}
+
+// fnText: the mapping value of a function code  F<kind><arg>~<arg>…
+//   S randString(args)  W randString( a , b ) with blanks  Q randString(a,b without the closing bracket
+//   I randInt(args)  U uuid()  X nosuch(1) (no such function: looked up as a path)  P " randString(2, z)" (blank before the name)
+func fnText(code string) string {
+	if len(code) < 2 {
+		return code
+	}
+	var args []string
+	for _, a := range splitNE(code[2:], "~") {
+		args = append(args, fnArg(a))
+	}
+	switch code[1] {
+	case 'S':
+		return "randString(" + strings.Join(args, ", ") + ")"
+	case 'W':
+		return "randString( " + strings.Join(args, " ,") + " )"
+	case 'Q':
+		return "randString(" + strings.Join(args, ",")
+	case 'I':
+		return "randInt(" + strings.Join(args, ",") + ")"
+	case 'U':
+		return "uuid()"
+	case 'X':
+		return "nosuch(1)"
+	case 'P':
+		return " randString(2, z)"
+	}
+	return code
+}
+
+// fnDet: is the value of the function code determined by its arguments (randString over ONE letter)?
+func fnDet(code string) bool {
+	if len(code) < 2 || !strings.ContainsRune("SWQ", rune(code[1])) {
+		return false
+	}
+	a := splitNE(code[2:], "~")
+	if len(a) != 2 || a[1] == "" {
+		return false
+	}
+	for i := 1; i < len(a[1]); i++ {
+		if a[1][i] != a[1][0] {
+			return false
+		}
+	}
+	return true
+}
+
+// fnCanon: what the target reports for the value of a function code: the value itself when it is determined,
+// otherwise its shape (rnd<length> / int / uuid)
+func fnCanon(code, val string) string {
+	if fnDet(code) {
+		return val
+	}
+	if len(code) < 2 {
+		return "bad." + val
+	}
+	switch code[1] {
+	case 'S', 'W', 'Q':
+		for _, c := range val {
+			if !strings.ContainsRune("abcdefghijklmnopqrstuvwxyzABCDEFGHIJKLMNOPQRSTUVWXYZ0123456789_-)", c) {
+				return "bad." + val
+			}
+		}
+		return "rnd" + strconv.Itoa(len(val))
+	case 'I':
+		if _, err := strconv.Atoi(val); err == nil {
+			return "int"
+		}
+	case 'U':
+		if len(val) == 36 && val[8] == '-' && val[13] == '-' && val[18] == '-' && val[23] == '-' {
+			return "uuid"
+		}
+	}
+	return "bad." + val
+}
+
 func prePath(code string) string {
 	switch {
 	case code == "n":
@@ -84,6 +177,18 @@ func prePath(code string) string {
 		return "source.users[last].name"
 	case code == "r":
 		return "source.users[rand].name"
+	case strings.HasPrefix(code, "N"):
+		if k, err := strconv.Atoi(code[1:]); err == nil && k >= 0 && k < len(nextSpellings) {
+			return nextSpellings[k]
+		}
+	case strings.HasPrefix(code, "L"):
+		if k, err := strconv.Atoi(code[1:]); err == nil && k >= 0 && k < len(lastSpellings) {
+			return lastSpellings[k]
+		}
+	case strings.HasPrefix(code, "I"):
+		return " source . users[ " + code[1:] + " ] . name"
+	case strings.HasPrefix(code, "F"):
+		return fnText(code)
 	case strings.HasPrefix(code, "i"):
 		return "source.users[" + code[1:] + "].name"
 	case strings.HasPrefix(code, "q"):
@@ -145,7 +250,7 @@ func gunYAML(kv map[string]string, csvFile, jsonFile string) string {
 		if len(r.pre) > 0 {
 			for _, p := range r.pre {
 				pfx := "X-V-"
-				if p[1] == "n" || p[1] == "m" {
+				if p[1] == "n" || p[1] == "m" || strings.HasPrefix(p[1], "N") {
 					pfx = "X-N-"
 				}
 				fmt.Fprintf(&b, "      %s: %s\n", yq(pfx+p[0]), yq("{{.request."+r.name+".preprocessor."+p[0]+"}}"))
@@ -246,6 +351,9 @@ func assertYAML(b *strings.Builder, conds []string) {
 	}
 }
 
+// bigPad: length of the padding of the large response body (oracle code L)
+const bigPad = 5000
+
 type gunConf struct {
 	Gun func() (core.Gun, error) `config:"gun"`
 }
@@ -329,6 +437,9 @@ func (in *instance) ServeHTTP(w http.ResponseWriter, r *http.Request) {
 					val = "bad." + val
 				}
 			}
+			if strings.HasPrefix(kindOf[vr], "F") {
+				val = fnCanon(kindOf[vr], val)
+			}
 			hdrs = append(hdrs, "V."+vr+"="+escv(val))
 		}
 	}
@@ -382,6 +493,20 @@ func (in *instance) ServeHTTP(w http.ResponseWriter, r *http.Request) {
 			}
 			_ = conn.Close()
 		}
+	case code == "r":
+		// a redirect: the gun does not follow it (the step sees status 302); a client that does would send a request no step describes
+		w.Header().Set("X-Tok", "H"+tok)
+		w.Header().Set("Location", "/"+name+"/moved")
+		w.WriteHeader(http.StatusFound)
+		_, _ = w.Write([]byte(okBody))
+	case code == "n":
+		// 204: a response without a body
+		w.Header().Set("X-Tok", "H"+tok)
+		w.WriteHeader(http.StatusNoContent)
+	case code == "L":
+		// a body of several KiB, sent chunked (no Content-Length)
+		w.Header().Set("X-Tok", "H"+tok)
+		_, _ = w.Write([]byte(fmt.Sprintf(`{"tok":"T%s","n":%d,"pad":"%s"}`, tok, k, strings.Repeat("x", bigPad))))
 	case code == "b":
 		w.Header().Set("X-Tok", "H"+tok)
 		_, _ = w.Write([]byte(`{"tok":`))
